@@ -71,6 +71,10 @@ pub fn dump_case(id: &str, c: &compiler::pipeline::pipeline::Compilation, out: &
     writeln!(out, "{}\tSTAGE\tlift\t{}", id, prog(dump::lift_file(&c.lambda), &impls).to_text()).unwrap();
     writeln!(out, "{}\tSTAGE\tanf\t{}", id, prog(dump::anf_file(&c.anf), &impls).to_text()).unwrap();
     writeln!(out, "{}\tSTAGE\tgo\t{}", id, godump::gfile(&c.go).to_text()).unwrap();
+    // inputs of the whole-pipeline model (C01 pipeline composition): what `go_file` reads of `GlobalGoEnv`, and the
+    // ANF with every `ty` field (to check the model's re-annotation)
+    writeln!(out, "{}\tGOENV\t{}", id, crate::gocomp::env_dump(c).to_text()).unwrap();
+    writeln!(out, "{}\tAANF\t{}", id, crate::gocomp::anf_annot(&c.anf).to_text()).unwrap();
     // input of the composite middle-end model (C01 pipeline composition): the type definitions of `genv`
     writeln!(out, "{}\tGENV\t{}", id, tagged("genv", vec![crate::c07::enums_s(c.genv.enums()), crate::c07::structs_s(c.genv.structs())]).to_text()).unwrap();
     // the printer tie: what the user runs is the printed text
